@@ -377,7 +377,9 @@ UrlQueryDom(v) == /\ IsObj(v)
                   /\ \A i \in 1 .. Len(v.e) : \/ IsStr(v.e[i])
                                               \/ (IsArr(v.e[i]) /\ Len(v.e[i].e) >= 2 /\ \A j \in 1 .. Len(v.e[i].e) : IsStr(v.e[i].e[j]))
 
-Serialisers == {"json", "jq", "jsonl", "yaml", "toml", "csv", "xml", "xmla", "urlquery"}
+\* "xmlseq": the element tree (array shape) written, read back in the object shape WITH the order of the children kept (`seq`), written
+\* again and read in the array shape: the order of children survives the object shape
+Serialisers == {"json", "jq", "jsonl", "yaml", "toml", "csv", "xml", "xmla", "xmlseq", "urlquery"}
 InDomain(f, v) == CASE f \in {"json", "json_i"} -> JsonDom(v)
                     [] f \in {"jq", "jq_i"} -> JqDom(v)
                     [] f = "jsonl" -> JsonlDom(v)
@@ -385,7 +387,7 @@ InDomain(f, v) == CASE f \in {"json", "json_i"} -> JsonDom(v)
                     [] f = "toml"  -> TomlDom(v)
                     [] f = "csv"   -> CsvDom(v)
                     [] f = "xml"   -> XmlObjDom(v)
-                    [] f = "xmla"  -> XmlArrDom(v)
+                    [] f \in {"xmla", "xmlseq"} -> XmlArrDom(v)
                     [] f = "urlquery" -> UrlQueryDom(v)
                     [] OTHER       -> FALSE
 
